@@ -43,7 +43,18 @@ def _run(case):
     try:
         signal.alarm(timeout)
         try:
-            res = _MOD.check_case(case)
+            if isinstance(case, dict) and case.get("via"):
+                # same case, every dataset reached through a history (built larger, then cut down by a public mutator)
+                from bounded import adapt as A
+                with A.via(case["via"]):
+                    res = _MOD.check_case(case)
+                for f in res.get("fails", []):
+                    f["site"] = "%s [dataset reached via %s]" % (f.get("site"), case["via"])
+                if res.get("key") is not None:
+                    res["key"] = "%s|via=%s" % (res["key"], case["via"])
+                res["nkeys"] = 0        # the same (dataset, scheme) pairs as the direct case: not counted as distinct
+            else:
+                res = _MOD.check_case(case)
         finally:
             signal.alarm(0)
         res.setdefault("fails", [])
@@ -59,6 +70,20 @@ def _run(case):
         return {"crash": "timeout after %ds on case %s" % (timeout, json.dumps(case, default=str)[:400])}
     except Exception:
         return {"crash": traceback.format_exc()[-3000:] + "\ncase=" + json.dumps(case, default=str)[:600]}
+
+
+def _with_histories(cases, every):
+    """after every `every`-th case, the same case again with its datasets reached through a history (bounded/adapt.py:
+    one extra element or empty ranking, removed by a public in-place mutator), the six histories in rotation"""
+    kinds = ["rm_last", "rm_first0", "rm_tied", "rm_alpha", "rm_empty", "rm_rate"]
+    k = 0
+    for i, c in enumerate(cases):
+        yield c
+        if i % every == 0 and isinstance(c, dict) and "via" not in c:
+            c2 = dict(c)
+            c2["via"] = kinds[k % len(kinds)]
+            k += 1
+            yield c2
 
 
 def main():
@@ -82,6 +107,9 @@ def main():
             cases = [rp["case"]]
         else:
             cases = mod.gen_cases(a.tier, a.seed)
+            every = getattr(mod, "VIA_EVERY", {}).get(a.tier)
+            if every:
+                cases = _with_histories(cases, every)
         keys = set()
         extra_keys = 0
         any_samples = []
